@@ -185,6 +185,13 @@ def check_base_mode(base_ast, seed, mode):
         return expr, res
 
     bexpr, base = states(base_ast)
+    for av, val in base.items():
+        if isinstance(val, str) and val.startswith("exc:"):
+            # base expressions are valid and in the domain: their evaluation raises under no assignment
+            out.append({"kind": f"raised/{mode}", "case": {"ast": base_ast, "seed": seed, "t": ["base", []], "mode": mode,
+                                                          "assign": dict(zip(rckeys, av))},
+                        "expected": "an outcome", "observed": val, "msg": f"{bexpr} through the {mode} evaluators"})
+            return out, n
     for name, path, tast in transformations(base_ast, pools):
         if name not in ("hint-left", "hint-right"):
             continue
